@@ -820,6 +820,12 @@ def getattr_(it, o, name):
     except Exception as e:
         _raise(e)
     # methods of concrete str/containers called with symbolic args
+    if isinstance(o, (bytes, str)) and name == "join":
+        # sep.join(<engine-side sequence>) is answered by the sequence (ghost byte strings etc.)
+        _nat = v
+        return Model(lambda it_, arg, _o=o: (arg.joined(it_, _o) if hasattr(arg, "joined") else
+                                             (STR_METHODS["join"](it_, SStr(z3.StringVal(_o)), arg) if isinstance(_o, str) and has_sym(arg)
+                                              else _native(it_, _nat, (arg,), {}))), "join")
     if isinstance(o, str) and name in STR_METHODS:
         return Model(lambda it_, *a, _f=STR_METHODS[name], _n=name, **k:
                      (_f(it_, SStr(z3.StringVal(o)), *a, **k) if (has_sym(a) or has_sym(k)) else _native(it_, getattr(o, _n), a, k)),
